@@ -548,7 +548,9 @@ def gen_loop_case(rng):
     iters = rng.choice([1, 2, 2, 3, 3, 4])
     has_src = S == 1 or rng.random() < 0.5
     two = rng.random() < 0.5
-    cond = "check" if two else "work"
+    # with two looped components either of them may produce the condition (the other one can then end shut-down in
+    # an iteration that is followed by further iterations)
+    cond = rng.choice(["check", "check", "work"]) if two else "work"
     consumers = [{"name": "after", "stage": S + rng.choice([0, 0, 1]), "of": "work", "method": "ref"}]
     if two and rng.random() < 0.6:
         consumers.append({"name": "after2", "stage": S + rng.choice([0, 1]), "of": "check", "method": "ref"})
@@ -682,12 +684,27 @@ def run_loop(case, chooser_factory):
             is_rep = bool(spec.workflowAttributes["isRepeat"])
             preds = sorted(p for p in G.predecessors(ref) if p in sim.comp)
             res.launches.append([ref, preds])
+            # the iterations of a looped component that a later iteration has superseded: the controller propagates
+            # failure / shut-down from the LATEST iteration only (Controller._true_nodes_from_identifiers(...,
+            # only_latest_looped=True), a documented design decision of DoWhile); the property text quantifies over
+            # DAGs, so the failed / shut-down clauses are evaluated on the latest iteration and on producers outside
+            # loops, the finality clause on every producer
+            latest = {}
+            for p in preds:
+                k, name = _iteration_of(p)
+                if k is not None:
+                    key = (sim.comp[p].stageIndex, name)
+                    latest[key] = max(latest.get(key, -1), k)
             for p in preds:
                 fa = sim.final_clock.get(p)
                 truth = sim.first_final.get(p)
+                k, name = _iteration_of(p)
+                superseded = k is not None and k < latest[(sim.comp[p].stageIndex, name)]
                 if fa is None or fa > clock:
                     if not (is_rep and sim.comp[p].stageIndex == c.stageIndex and started.get(p)):
                         res.launch_bad.append(["launched-before-producer-final", ref, p, at])
+                elif superseded:
+                    pass
                 elif truth == "failed":
                     res.launch_bad.append(["launched-on-failed-producer", ref, p, at])
                 elif truth == "shutdown" and not is_agg:
